@@ -197,6 +197,75 @@ def run_c10(tier, args):
     return 2 if herr else (1 if nviol else 0)
 
 
+def _run_simple(prop, tier, counts, level, rule, extra_cov, assumptions, eval_counter):
+    t0 = time.time()
+    flavours = tier_flavours(tier)
+    bins, d = build(tier, flavours)
+    out = scratch_dir(prop)
+    extra, known = known_arg(prop)
+    first = first_run_seed()
+    nreg, regbad = run_regressions(prop, lambda t: bins["checked" if "\nbuild checked" in t else "unchecked"])
+    nviol = regbad
+    herr = False
+    total = Batch()
+    used = []
+    for fl, n in counts.items():
+        if fl not in bins:
+            continue
+        used.append(fl)
+        b = run_batch(bins[fl], prop, tier, first, n, out, extra=extra)
+        log("[%s] %s: %d plans in %.1fs, %d violating" % (prop, fl, b.runs, b.wall, len(b.violations)))
+        v, e = gate_and_report(prop, bins[fl], b, out, extra=extra, tier=tier)
+        nviol += v
+        herr |= e
+        b.tuples = {fl + "|" + t for t in b.tuples}
+        total.merge(b)
+    print_known(prop, known, total)
+    wall = time.time() - t0
+    evals = total.counters.get(eval_counter, total.runs)
+    cov = dict(
+        evaluations=evals,
+        distinct_nontrivial=len(total.tuples),
+        rule=rule,
+        plans=total.runs,
+        samples=total.samples[:5],
+        faults_fired={k[len("fault.fired."):]: v for k, v in sorted(total.counters.items()) if k.startswith("fault.fired.")},
+        counters={k: v for k, v in sorted(total.counters.items()) if not k.startswith("fault.")},
+        builds=used,
+        plans_per_hour=int(total.runs / max(wall, 1e-9) * 3600),
+        simulated_time="n/a (no clock); steps = " + eval_counter,
+        regression_plans_replayed=nreg,
+        known_findings_matched=dict(total.known),
+        real_components=REAL,
+        stub_components=STUB,
+        worker_deaths=total.worker_deaths,
+    )
+    cov.update(extra_cov)
+    write_evidence(prop, tier, base_seed(), level, cov, wall, nviol, assumptions)
+    return 2 if herr else (1 if nviol else 0)
+
+
+def run_c04(tier, args):
+    q = tier == "quick"
+    return _run_simple("C04", tier, {"checked": 60000 if q else 2000000, "unchecked": 30000 if q else 1000000, "checked_clang20": 300000, "unchecked_clang20": 300000}, "exploration",
+                       "one evaluation = one cursor call inside a seeded walk over a complete frame (optionally with extended blocks): per member a seeded sequence of wrappers (plain, init, dont_move, init_dont_move, skip; up to 3 non-moving repeats before a moving call; setter form for scalars; cursor_range or cursor_subrange(0,j)+cursor_subrange(j[,count]) for groups; const or mutable cursor). After every call the cursor position must equal the documented one (model, appendix C) and the value / view address must equal what the real random-access accessor returns; a complete walk must end at the message end with size_bytes(m,c)==size_bytes(m). In checked builds a third of the walks displace the cursor (by +-1..17 bytes) before one plain/dont_move/skip call of a field or non-first group/data: the wrong-cursor assertion must fire at exactly that call. distinct = distinct (build, schema, member kind, wrapper, extended?) and (misuse, schema, member kind, wrapper) tuples",
+                       {}, ["the cursor protocol model of DESIGN.md appendix C (derived from doc/representation.md and the cursor_ops docs)", "misuse is only injected where the statement demands a report (field, or non-first group/data, through plain/dont_move/skip)"], "c04.calls")
+
+
+def run_c19(tier, args):
+    q = tier == "quick"
+    return _run_simple("C19", tier, {"checked": 40000 if q else 400000, "unchecked": 40000 if q else 400000, "checked_clang20": 60000, "unchecked_clang20": 60000}, "fault_enumeration",
+                       "per seeded frame: (a) one complete full-depth visit whose event sequence (callback kind, tag, view position) must equal the schema-order sequence of the model and whose delivered values must equal the named accessor's; cursor must end at the message end; (b) for EVERY k from 1 to the number of stoppable callbacks the same visit with the k-th callback returning true: exactly the first events up to that callback, identical to the complete visit's prefix, nothing after (incl. stops inside nested group entries and composites); (c) for every field / composite member: get_by_tag == named getter, set_by_tag writes the same bytes as the named setter; enum values yield their value tag or unknown_enum_value_tag, sets every choice with its bit. evaluations = visits executed (complete + cancelled). distinct = distinct (build, schema, callback kind) tuples",
+                       {"exhaustive_over_cancellation_points_per_frame": True}, ["event grammar of DESIGN.md appendix E (from doc/visit_api.md)", "frames are well-formed; truncated visits belong to C10"], "fault.fired.cancel_at_callback")
+
+
+def run_c03(tier, args):
+    q = tier == "quick"
+    return _run_simple("C03", tier, {"checked": 60000 if q else 800000, "unchecked": 60000 if q else 800000, "unchecked_O0": 20000 if q else 200000, "checked_clang20": 100000, "unchecked_clang20": 100000}, "exploration",
+                       "one evaluation = one accessor result checked on a frame produced by the independent reference encoder with wire block lengths larger than the compiled ones (root and every group level independently, +1..+21 bytes of filler): every field of every level instance by random access (value == wire bytes at the model offset, views at the model position), every group (position, size, size_bytes, entry positions by iteration and operator[]), every data member (position, size, content), size_bytes of every level, size_bytes_checked, a full cursor traversal (every position and value, end == wire size) and a full visit (structure and positions, end == wire size). distinct = distinct (build, schema, message, root extension) tuples. No fault is involved: the configuration axis is the producing peer's schema version (degenerate use of the method, DESIGN 1).",
+                       {}, ["the layout model of DESIGN.md appendix A", "the extension is filler bytes, not a real v2 encoder (the thorough real-v2 producer of the design was not built)"], "c03.random_access_checks")
+
+
 def replay(prop, path):
     plan = open(path).read()
     if "\nengine dynarr" in plan:
